@@ -265,3 +265,10 @@ package codec
 // an Any is {"!type": …, "value": …}: the payload is read from the member called "value" and from no other (C03)
 //@ func (*decoder).decodeAny$1
 //@   assert at popValueAsBytes#0 member: keyTokenStr == "value"
+
+// the document is the whole input (C03): decoding succeeds only when the token source is exhausted after
+// the root value; anything that follows it is an error
+//@ import io "io"
+//@ func (*Codec).decodeRoot
+//@   assert at return#3 exhausted: err == io.EOF
+//@   assert at return#5 trailing: result0 != nil
